@@ -41,7 +41,7 @@ class Notifications(object):
         common = set(tmp).intersection(tbp)
         if common:
             height = max(common)
-        elif tmp and max(tmp) == self._highest_block:
+        elif self._highest_block in tmp:
             height = self._highest_block
         else:
             # Either we are processing a block and waiting for it to
